@@ -76,7 +76,7 @@ impl Property for P {
         vec![
             "semantic order of rotated files is by index, resp. by (timestamp, restart number) as parsed by the harness's own name grammar".into(),
             "virtual clock via the verif_hooks feature; the file system is tmpfs (/dev/shm)".into(),
-            "the [starttime] name part is only combined with a clock frozen inside one second (see finding on start time)".into(),
+            "with a [starttime] name part all files of the run must carry the start time of the run (the name grammar accepts any well-formed start time; C16 checks its value)".into(),
         ]
     }
     fn cases(tier: Tier) -> u64 {
@@ -91,7 +91,9 @@ impl Property for P {
                 let n = cfg.rot.as_ref().and_then(|r| r.crit.size());
                 let cap = cfg.mode.buffer_cap();
                 let le = cfg.line_ending().len();
-                let with_time = !cfg.start_ts;
+                // ([starttime] is fixed when the writer is built - repaired by c68046a - so the clock
+                // may advance during the history)
+                let with_time = true;
                 (
                     Just(cfg),
                     prop::option::weighted(0.9, vinst_strat()),
